@@ -28,14 +28,15 @@ def U(i):
 NODES = {
     "ir": (1, "IR"), "modA": (2, "Module"), "secA": (3, "Section"), "biA": (4, "ByteInterval"), "cbA": (5, "CodeBlock"), "dbA": (6, "DataBlock"),
     "pxA": (7, "ProxyBlock"), "syA1": (8, "Symbol"), "syA2": (9, "Symbol"), "modB": (12, "Module"), "secB": (13, "Section"), "biB": (14, "ByteInterval"),
-    "cbB": (15, "CodeBlock"), "syB": (18, "Symbol"),
+    "cbB": (15, "CodeBlock"), "syB": (18, "Symbol"), "biC": (24, "ByteInterval"),
 }
 TARGETS = ["cbA", "dbA", "pxA", "syA1", "secA", "biA", "modA", "ir", "unknown"]
 KIND_OF = {k: v[1] for k, v in NODES.items()}
-REFS = ["referent", "entry_point", "edge_source", "edge_target", "const_symbol", "addr_symbol1", "addr_symbol2"]
+REFS = ["referent", "entry_point", "edge_source", "edge_target", "const_symbol", "addr_symbol1", "addr_symbol2", "late_symbol"]
 ALLOWED = {
     "referent": ("CodeBlock", "DataBlock", "ProxyBlock"), "entry_point": ("CodeBlock",), "edge_source": ("CodeBlock", "ProxyBlock"),
     "edge_target": ("CodeBlock", "ProxyBlock"), "const_symbol": ("Symbol",), "addr_symbol1": ("Symbol",), "addr_symbol2": ("Symbol",),
+    "late_symbol": ("Symbol",),
 }
 
 
@@ -108,6 +109,18 @@ def base_message(refs=None, aux=None):
     e.addr_addr.scale = 2
     e.addr_addr.symbol1_uuid = ub("syA1")
     e.addr_addr.symbol2_uuid = ub("syB")
+    # a third module without symbols of its own whose interval (size 0) holds an expression naming a symbol of the first module
+    c = msg.modules.add()
+    c.uuid = U(22).bytes
+    c.name = "C"
+    sc = c.sections.add()
+    sc.uuid = U(23).bytes
+    bc = sc.byte_intervals.add()
+    bc.uuid = U(24).bytes
+    bc.size = 0
+    ec = bc.symbolic_expressions[0]
+    ec.addr_const.offset = 3
+    ec.addr_const.symbol_uuid = refs.get("late_symbol", ub("syA1"))
     ed = msg.cfg.edges.add()
     ed.source_uuid = refs.get("edge_source", ub("cbA"))
     ed.target_uuid = refs.get("edge_target", ub("pxA"))
@@ -219,7 +232,7 @@ def run_refs(choice):
     biA = tree[U(4)]
     got = {
         "referent": y1.referent, "entry_point": modA.entry_point,
-        "const_symbol": biA.symbolic_expressions[0].symbol,
+        "const_symbol": biA.symbolic_expressions[0].symbol, "late_symbol": tree[U(24)].symbolic_expressions[0].symbol,
         "addr_symbol1": biA.symbolic_expressions[4].symbol1, "addr_symbol2": biA.symbolic_expressions[4].symbol2,
     }
     for r in refs:
@@ -232,6 +245,9 @@ def run_refs(choice):
             return "edge endpoints do not name the selected nodes"
     if len(ir.cfg) != 2 and not (refs.get("edge_source") == ub("cbA") and refs.get("edge_target") == ub("cbA")):
         return "edge count"
+    late = tree[U(24)].symbolic_expressions
+    if list(late.keys()) != [0] or late[0].symbol is not tree[UUID(bytes=refs.get("late_symbol", ub("syA1")))]:
+        return "expression of the symbol-less third module is missing or does not name the first module's symbol object"
     eb = tree[U(14)].symbolic_expressions[0]
     if eb.symbol1 is not tree[U(8)] or eb.symbol2 is not tree[U(18)]:
         return "expression of the second module does not name the first module's symbol object"
@@ -274,14 +290,14 @@ AUX_SHAPES = ["UUID", "Offset", "sequence<UUID>", "mapping<UUID,Offset>", "set<U
 
 def aux_refs(level: int, shape: int, t: int, disp: int) -> bool:
     """
-    pre: 0 <= level < 2 and 0 <= shape < len(AUX_SHAPES) and 0 <= t < len(TARGETS) + 2
+    pre: 0 <= level < 2 and 0 <= shape < len(AUX_SHAPES) and 0 <= t < len(TARGETS) + 3
     pre: 0 <= disp < 2**64
     post: __return__
     """
     lv = ("ir", "module")[pick(level, 2)]
     sh = AUX_SHAPES[pick(shape, len(AUX_SHAPES))]
-    ti = pick(t, len(TARGETS) + 2)
-    names = TARGETS + ["cbB", "syB"]
+    ti = pick(t, len(TARGETS) + 3)
+    names = TARGETS + ["cbB", "syB", "biC"]            # biC: an interval of size 0
     tgt = names[ti]
     with untraced():
         u = ub(tgt)
